@@ -1037,6 +1037,14 @@ impl World {
                     }
 
                     self.world.event_queue.clear();
+
+                    // Entities reserved by handlers must still come into existence. Their
+                    // `Spawn` events are gone, and a reservation left pending would make
+                    // the next cursor reset hand out the same IDs again.
+                    let world = &mut *self.world;
+                    world
+                        .reserved_entities
+                        .spawn_all(&mut world.entities, |id| world.archetypes.spawn(id));
                 }
             }
 
